@@ -21,8 +21,8 @@ from collections import Counter
 from pathlib import Path
 
 VERIF = Path(__file__).resolve().parent.parent
-REPLAYS = VERIF / 'replays'
-EVIDENCE = VERIF / 'evidence'
+REPLAYS = Path(os.environ.get('VERIF_REPLAY_DIR', VERIF / 'replays'))
+EVIDENCE = Path(os.environ.get('VERIF_EVIDENCE_DIR', VERIF / 'evidence'))
 KNOWN = VERIF / 'known_findings.json'
 
 CASE_TIMEOUT = int(os.environ.get('VERIF_CASE_TIMEOUT', '300'))
@@ -146,7 +146,7 @@ def minimise(mod, case, viol, budget_s):
 
 
 def write_replay(prop, seed, case, viol, result, n=0):
-    REPLAYS.mkdir(exist_ok=True)
+    REPLAYS.mkdir(parents=True, exist_ok=True)
     path = REPLAYS / f'{prop}-{seed}-{n}.json'
     doc = {
         'property': prop,
@@ -305,7 +305,7 @@ def check(prop, tier, *, base_seed=None, budget_s=None, max_runs=None, workers=N
         'assumptions': getattr(mod, 'ASSUMPTIONS', []),
     }
     if exit_code != 2:
-        EVIDENCE.mkdir(exist_ok=True)
+        EVIDENCE.mkdir(parents=True, exist_ok=True)
         (EVIDENCE / f'{prop}.json').write_text(json.dumps(ev, indent=1, default=repr))
     print(f'{prop} {tier}: cases={results_n} evaluations={evaluations} distinct={len(digests)} '
           f'violations={len(violations)} known={sum(v[1] for v in known_hits.values())} wall={wall:.1f}s exit={exit_code}')
